@@ -23,7 +23,7 @@ META = {
 
 NEW_EXPRS = ['x + 1', 'f(a, b=c)', '[1, 2]', 'a if b else c', 'lambda: 0', 'not z', '"s"', '(y := 2)', 'a < b < c', '{k: v}', 'yield_', '-1', 'u.v[w]', 'f"{q}"', '(p, q)', 'é + "日本"', 'await_ or b', '[i for i in j]', '1 if 2 else 3', 'x ** -y']
 NEW_STMTS = ['new_var = new_call(1, "two")', 'pass', 'if c:\n    d = 1\nelse:\n    e = 2', 'for i in j:\n    k += i', 'return_ = None', 'import os', 'del zz', 'assert t, "m"', 'with a as b:\n    pass', 'x: int = 1', 'def nf(a, *b):\n    return a', 'try:\n    pass\nexcept E:\n    pass']
-DONOR = 'def donor(p, q=1):\n    # donor comment\n    r = p + q  # trailing\n    s = [p,\n         q]\n    return r * (s[0]\n                + 2)\nvalue = {"k": donor(1), **other}\n'
+DONOR = 'def donor(p, q=1):\n    # donor comment\n    r = p + q  # trailing\n    s = [p,\n         q]\n    return r * (s[0]\n                + 2)\nvalue = {"k": donor(1), **other}\nif c1:\n    first()\n    second()\nelse:\n    third()\n    fourth()\nfor di in dj:\n    fa()\n    fb()\nelse:\n    fc()\n    fd()\n'
 
 
 def sdump(a):
@@ -75,9 +75,10 @@ def mutate(rnd, tree, donor_tree, touched):
     """Apply one mutation in place. Returns its kind or None. `touched` collects ids of AST objects that were changed/moved
     (and of the containers whose lists changed)."""
     kind = rnd.choice(['swap_stmts', 'del_stmt', 'dup_stmt', 'insert_new_stmt', 'insert_donor_stmt', 'move_stmt', 'repl_expr_new', 'repl_expr_intree', 'repl_expr_donor', 'repl_expr_copy',
-                       'change_name', 'change_const', 'elts_reorder', 'elts_extend', 'dict_reorder', 'wrap_call', 'del_optional', 'toggle_async', 'global_names', 'handlers_swap', 'share_expr'])
+                       'change_name', 'change_const', 'elts_reorder', 'elts_extend', 'dict_reorder', 'wrap_call', 'del_optional', 'toggle_async', 'global_names', 'handlers_swap', 'share_expr',
+                       'insert_donor_run', 'import_level', 'const_kind', 'change_ident', 'change_op'])
     nodes = list(ast.walk(tree))
-    if kind in ('swap_stmts', 'del_stmt', 'dup_stmt', 'insert_new_stmt', 'insert_donor_stmt', 'move_stmt'):
+    if kind in ('swap_stmts', 'del_stmt', 'dup_stmt', 'insert_new_stmt', 'insert_donor_stmt', 'move_stmt', 'insert_donor_run'):
         conts = stmt_lists(tree)
         if not conts:
             return None
@@ -98,6 +99,12 @@ def mutate(rnd, tree, donor_tree, touched):
             l.insert(rnd.randrange(len(l) + 1), ast.parse(rnd.choice(NEW_STMTS)).body[0])
         elif kind == 'insert_donor_stmt':
             l.insert(rnd.randrange(len(l) + 1), rnd.choice(donor_tree.body[0].body[:3]) if rnd.random() < 0.7 else donor_tree.body[0])
+        elif kind == 'insert_donor_run':
+            # two statements of ANOTHER FST tree placed side by side: consecutive siblings, or same parent but different list fields
+            blk = rnd.choice(donor_tree.body[2:4])
+            pair = rnd.choice([(blk.body[0], blk.body[1]), (blk.body[0], blk.orelse[1]), (blk.orelse[0], blk.body[1]), (blk.orelse[0], blk.orelse[1]), (blk.body[1], blk.body[0])])
+            at = rnd.randrange(len(l) + 1)
+            l[at:at] = list(pair)
         elif kind == 'move_stmt':
             n2, f2, l2 = rnd.choice(conts)
             if len(l) < 2 or l2 is l:
@@ -227,7 +234,67 @@ def mutate(rnd, tree, donor_tree, touched):
         cs = [n for n in nodes if isinstance(n, ast.comprehension)]
         if not cs:
             return None
-        return None  # changing is_async requires an async context to stay valid: not generated
+        c = rnd.choice(cs)   # ast.parse accepts an async comprehension anywhere (only the compiler objects), so the edited AST stays valid by the round's criterion
+        c.is_async = 0 if c.is_async else 1
+        touched.add(id(c))
+        return kind
+    if kind == 'import_level':
+        cs = [n for n in nodes if isinstance(n, ast.ImportFrom) and not any(a.name == '*' for a in n.names)]
+        if not cs:
+            return None
+        c = rnd.choice(cs)
+        c.level = (c.level or 0) + 1 if (rnd.random() < 0.6 or not c.level or (c.level == 1 and not c.module)) else c.level - 1
+        touched.add(id(c))
+        return kind
+    if kind == 'const_kind':
+        banned = {id(x) for p in nodes if isinstance(p, (ast.JoinedStr, ast.pattern)) for x in ast.walk(p)}
+        banned |= {id(p.value) for p in nodes if isinstance(p, ast.Expr)}
+        cs = [n for n in nodes if isinstance(n, ast.Constant) and isinstance(n.value, str) and id(n) not in banned]
+        if not cs:
+            return None
+        c = rnd.choice(cs)
+        c.kind = None if c.kind else 'u'
+        touched.add(id(c))
+        return kind
+    if kind == 'change_ident':
+        c = []
+        for n in nodes:
+            if isinstance(n, ast.alias) and n.name != '*':
+                c.append((n, 'name', rnd.choice(['renmod', 'pk.sub.mod', 'é.ü'])))
+                c.append((n, 'asname', rnd.choice(['al', None]) if n.asname else 'al'))
+            elif isinstance(n, ast.arg):
+                c.append((n, 'arg', 'renarg'))
+            elif isinstance(n, ast.Attribute):
+                c.append((n, 'attr', rnd.choice(['renattr', 'ü'])))
+            elif isinstance(n, ast.keyword) and n.arg:
+                c.append((n, 'arg', 'renkw'))
+            elif isinstance(n, (ast.FunctionDef, ast.AsyncFunctionDef, ast.ClassDef)):
+                c.append((n, 'name', 'rendef'))
+            elif isinstance(n, ast.ExceptHandler) and n.name:
+                c.append((n, 'name', 'renexc'))
+            elif isinstance(n, ast.ImportFrom) and n.module:
+                c.append((n, 'module', rnd.choice(['renfrom', 'a.b.c'])))
+        if not c:
+            return None
+        n, f, v = rnd.choice(c)
+        setattr(n, f, v)
+        touched.add(id(n))
+        return kind
+    if kind == 'change_op':
+        c = [n for n in nodes if isinstance(n, (ast.BinOp, ast.AugAssign, ast.UnaryOp, ast.BoolOp, ast.Compare))]
+        if not c:
+            return None
+        n = rnd.choice(c)
+        if isinstance(n, (ast.BinOp, ast.AugAssign)):
+            n.op = rnd.choice([ast.Add, ast.Mult, ast.Pow, ast.FloorDiv, ast.BitOr, ast.MatMult, ast.LShift])()
+        elif isinstance(n, ast.UnaryOp):
+            n.op = rnd.choice([ast.Not, ast.USub, ast.Invert])()
+        elif isinstance(n, ast.BoolOp):
+            n.op = ast.Or() if isinstance(n.op, ast.And) else ast.And()
+        else:
+            n.ops[rnd.randrange(len(n.ops))] = rnd.choice([ast.Lt, ast.IsNot, ast.NotIn, ast.Eq, ast.Is, ast.In])()
+        touched.add(id(n))
+        return kind
     if kind == 'global_names':
         gs = [n for n in nodes if isinstance(n, (ast.Global, ast.Nonlocal))]
         if not gs:
@@ -331,8 +398,14 @@ def run_round(ctx, FST, rnd, root, donor_root, label, round_no, hseed=None):
         ctx.count('edited_ast_not_valid_python(out of scope)')
         return None
     case['edited_unparse'] = edited_src if len(edited_src) < 3000 else None
+    amb = {}
+    if rnd.random() < 0.3:   # reconcile() pins these options itself: the caller's thread defaults must not matter
+        amb = {k: v for k, v in (('pars', rnd.choice([False, True])), ('norm', True), ('trivia', rnd.choice(['all', 'block'])), ('coerce', False), ('pars_walrus', False), ('pars_arglike', False),
+                                 ('docstr', False), ('norm_self', True)) if rnd.random() < 0.5}
+        case['ambient_options'] = {k: repr(v) for k, v in amb.items()}
     try:
-        out = root.reconcile()
+        with FST.options(**amb):
+            out = root.reconcile()
     except Exception as e:
         if touched & foreign:
             ctx.violation('mutation-inside-node-of-another-fst-tree-raises', f'round {round_no} kinds={kinds}: a node taken from another FST tree was itself modified (e.g. a statement moved into its body) and reconcile() raised {type(e).__name__}: {short(str(e), 100)}', case)
